@@ -24,7 +24,7 @@ MANIFEST = dict(
          "between two critical sections, request Q run against it, P resumed): first every pause point of every pair inside the "
          "channel life-cycle family and of the requests a static check-then-act test on the channel map names, then pairs that lock "
          "the same channel slot, then a seeded random fill (quick: tiers 1 and 2 = ~5300, thorough 16000 of ~32000); every schedule must complete and "
-         "replies + final stored state, in-memory channel state and the in-memory node payment ledger must equal those of P;Q or Q;P. NOT covered: equality of replies and "
+         "replies + final stored state, in-memory channel state and the in-memory node payment ledger and the content of both replies must equal those of P;Q or Q;P. NOT covered: equality of replies and "
          "of cross-channel node state with a sequential order (linearizability) is not proved; data-dependent lock paths that the "
          "recording corpus does not take are invisible to the recorder; atomics / memory model; try_lock (not used by the code; "
          "its appearance is an error).",
@@ -205,7 +205,13 @@ def run(res):
     focus = sorted({x["request"] for x in cta})
     cta_s = gen_locks.check_then_act(classes, progs, "S")
     focus_s = sorted({x["request"] for x in cta_s})
-    focus_args = (["focus=" + ",".join(focus)] if focus else []) + (["focus_s=" + ",".join(focus_s)] if focus_s else [])
+    # the same test for the other structural classes (tracker, channel slots): requests with two separate
+    # sections of one lock that both access the value; the sweep pauses them inside that window against every
+    # request that takes the same lock
+    cta_tc = gen_locks.check_then_act(classes, progs, "T") + gen_locks.check_then_act(classes, progs, "C")
+    focus_w = sorted({x["request"] for x in cta_tc})
+    focus_args = (["focus=" + ",".join(focus)] if focus else []) + (["focus_s=" + ",".join(focus_s)] if focus_s else []) \
+        + (["focus_w=" + ",".join(focus_w)] if focus_w else [])
     # quick: all of tiers 1 and 2 (sizes from the harness' own plan), thorough: 16000
     n_sweep = 16000
     if quick:
@@ -217,7 +223,7 @@ def run(res):
     sweep = {"races": 0, "completed": 0, "blocked_then_completed": 0, "program_changed": 0, "panicked": 0,
              "unpreparable": 0, "serializable": 0, "not_serializable": 0, "sequential_unavailable": 0,
              "stuck": 0, "total_schedules": 0, "tiers": None, "selected": 0, "sample": None, "focus": focus,
-             "focus_node_state": focus_s}
+             "focus_node_state": focus_s, "focus_tracker_and_slots": focus_w}
     odd, stuck_reports = [], []
 
     def run_shard(sh):
@@ -305,8 +311,12 @@ def run(res):
     odd = unlisted
     for o in odd[:3]:
         closest = min((o["vs_P_then_Q"], o["vs_Q_then_P"]), key=lambda d: len(d["differing_keys"]))
-        res.violation("the outcome of two concurrent requests (%s) equals neither sequential order: replies %s, differing state %s"
-                      % (" || ".join(o["spec"]), o["replies"], ", ".join(closest["differing_keys"][:4])),
+        content = ""
+        if not closest["differing_keys"] or o.get("reply_content") not in (o["vs_P_then_Q"].get("reply_content"), o["vs_Q_then_P"].get("reply_content")):
+            content = "; reply content %s (P;Q gives %s, Q;P gives %s)" % (
+                o.get("reply_content"), o["vs_P_then_Q"].get("reply_content"), o["vs_Q_then_P"].get("reply_content"))
+        res.violation("the outcome of two concurrent requests (%s) equals neither sequential order: replies %s, differing state %s%s"
+                      % (" || ".join(o["spec"]), o["replies"], ", ".join(closest["differing_keys"][:4]) or "none", content),
                       {"domain": "locks-sweep", "command": "harness locks race " + " ".join(o["spec"]), "case": o}, has_input=True)
 
     # every commitment update must be one critical section of its channel (the Coq obligation
@@ -346,6 +356,7 @@ def run(res):
         "sweep": sweep,
         "map_check_then_act_requests": cta,
         "node_state_check_then_act_requests": cta_s,
+        "tracker_and_slot_check_then_act_requests": cta_tc,
         "distinct_nontrivial": len(shapes),
         "programs": len(progs),
         "rule": "one fresh node (MemoryKVVStore persister, ManualClock; stub channel, two ready funded channels; per request the extra "
@@ -362,10 +373,14 @@ def run(res):
                 "the requests the static check-then-act test names, (2) pairs that lock the same channel slot with a commitment "
                 "update among them (seeded rotation), (3) seeded random fill; tier 1 also holds every pair of the four requests that carry "
                 "the same approved payment hash on channels A and B, and every request with two node-state sections (static test on "
-                "S) paused inside that window against every other request that takes the node state; quick: all of tiers 1 and 2, "
+                "S) paused inside that window against every other request that takes the node state, the same for the tracker and for "
+                "each channel slot (static test on T and C), and every pause point of the three heartbeat kinds against every block "
+                "request; quick: all of tiers 1 and 2, "
                 "thorough: 16000; "
                 "run on 8 processes. All must complete, and replies + final "
-                "state (every stored record without versions, every channel's in-memory enforcement state; order-insensitive) "
+                "state (every stored record without versions, every channel's in-memory enforcement state, the node payment ledger; "
+                "order-insensitive) and the CONTENT of the replies (heartbeat tip/height/time, balances, chaninfo, points, secrets, "
+                "signatures with their commitment number, channel ids) "
                 "must equal those of P;Q or of Q;P run sequentially.",
         "samples": [{"request": sample["name"], "outcome": sample["outcome"],
                      "program": " ".join("%s(%s)" % (k, gen_locks.lname(classes, (c, i))) for k, c, i in sample["events"])}]
